@@ -2119,7 +2119,14 @@ class BaseInterpreter(Generic[TContext, TEvent]):
                     return [resolved]
             if parent.initial and parent.initial in parent.states:
                 return [parent.states[parent.initial]]
-            return []
+            # 🧭 No default target and no `initial` child -- a parallel
+            #    parent, whose regions have nothing to "remember" yet.
+            #    Entering the parent itself takes the ordinary default
+            #    descent (every region, each through its own `initial`).
+            #    Returning nothing made the transition exit its domain and
+            #    enter no state at all, leaving a configuration without
+            #    any leaf.
+            return [parent]
 
         if history_node.history == "deep":
             # 🌊 Deep history restores the full nested configuration; entering
